@@ -171,6 +171,9 @@ type Catalogue struct {
 	// ON CLUSTER); the rows of `ver` are local: an INSERT stores them on this node, a read of the table itself sees
 	// only this node's rows, a read through a Distributed table sees the rows of all nodes.
 	Node int
+	// Policies: the server's storage policies and the disks each holds (nil = not modelled: every TO DISK is
+	// accepted). A table without the setting is on policy "default".
+	Policies map[string][]string
 }
 
 func New(dbs ...string) *Catalogue {
@@ -183,7 +186,7 @@ func New(dbs ...string) *Catalogue {
 
 // Clone returns an independent copy (objects are shared, they are immutable).
 func (c *Catalogue) Clone() *Catalogue {
-	n := &Catalogue{DBs: make(map[string]map[string]*Object, len(c.DBs)), Data: make(map[string][]Row, len(c.Data)), Clock: c.Clock, Node: c.Node}
+	n := &Catalogue{DBs: make(map[string]map[string]*Object, len(c.DBs)), Data: make(map[string][]Row, len(c.Data)), Clock: c.Clock, Node: c.Node, Policies: c.Policies}
 	for d, m := range c.DBs {
 		nm := make(map[string]*Object, len(m))
 		for k, v := range m {
@@ -691,6 +694,24 @@ func (c *Catalogue) Apply(s *Stmt, defDB string) error {
 			case "modify_ttl":
 				if o.Kind != KMergeTree {
 					return exc(36, "BAD_ARGUMENTS", "Engine of %s doesn't support TTL clause", q)
+				}
+				if c.Policies != nil {
+					pol := o.StoragePolicy()
+					if pol == "" {
+						pol = "default"
+					}
+					for _, it := range a.TTL {
+						if it.Action != "disk" {
+							continue
+						}
+						found := false
+						for _, d := range c.Policies[pol] {
+							found = found || d == it.Dest
+						}
+						if !found {
+							return exc(450, "BAD_TTL_EXPRESSION", "No such disk `%s` for given storage policy `%s`", it.Dest, pol)
+						}
+					}
 				}
 				o.TTL = append([]TTLItem(nil), a.TTL...)
 				o.TTLText = a.TTLText
